@@ -78,7 +78,7 @@ var schemas = map[string][]field{
 	// clientState.params is never nil: newClient stores &clientParams{} and setClientParams a fresh literal
 	"clientState":       {{"params", "params", kPtrNN("clientParams")}, {"setParams", "setParams", kBool}, {"lastElecID", "lastElecID", kPtr("Uint128")}},
 	"SessionParameters": {{"Redundancy", "Redundancy", kEnum}, {"Persistence", "Persistence", kEnum}, {"AckType", "AckType", kEnum}},
-	"FlushRequest":      {{"NetworkInstance", "NetworkInstance", kPtr("Unit")}, {"Override", "Override", kPtr("Unit")}, {"Id", "Id", kPtr("Uint128")}},
+	"FlushRequest":      {{"NetworkInstance", "NetworkInstance", kind{k: "oneof", s: "FlushNI"}}, {"Override", "Override", kPtr("Unit")}, {"Id", "Id", kPtr("Uint128")}},
 	"OpResult":          {{"ID", "ID", kNat}},
 	"AFTOperation":      {{"Id", "Id", kNat}, {"ElectionId", "ElectionId", kPtr("Uint128")}, {"Op", "Op", kEnum}},
 	"ModifyRequest":     {{"Params", "Params", kPtr("SessionParameters")}, {"ElectionId", "ElectionId", kPtr("Uint128")}, {"Operation", "Operation", kPtr("Unit")}},
@@ -86,7 +86,7 @@ var schemas = map[string][]field{
 
 var leanStruct = map[string]string{
 	"Uint128": "U128", "electionDetails": "ElectionDetails", "clientParams": "ClientParams", "clientState": "ClientState",
-	"SessionParameters": "SessionParameters", "FlushRequest": "FlushRequest", "ModifyRequest": "ModifyRequest", "Unit": "Unit", "OpResult": "OpResult", "AFTOperation": "AFTOperation",
+	"SessionParameters": "SessionParameters", "FlushRequest": "FlushRequest", "ModifyRequest": "ModifyRequest", "Unit": "Unit", "OpResult": "OpResult", "AFTOperation": "AFTOperation", "String": "String",
 }
 
 func leanType(k kind) string {
@@ -110,6 +110,10 @@ func leanType(k kind) string {
 		return "Option " + leanStruct[k.s]
 	case "statusval":
 		return "Status"
+	case "oneof":
+		return "Option " + k.s
+	case "fresp":
+		return "Option FlushResult"
 	case "aftresult":
 		return "(Nat × AftSt)"
 	case "list":
@@ -123,6 +127,8 @@ func leanType(k kind) string {
 		return "Option Status"
 	case "mresp":
 		return "Option MResp"
+	case "fun":
+		return "(" + leanType(k.t[1]) + " → " + leanType(k.t[0]) + ")"
 	case "tuple":
 		var p []string
 		for _, c := range k.t {
@@ -136,9 +142,20 @@ func leanType(k kind) string {
 // ---------------------------------------------------------------- values and environments
 
 type val struct {
-	lean string
-	kd   kind
-	path string // identity of a pointer-valued place, for nil knowledge
+	lean   string
+	kd     kind
+	path   string         // identity of a pointer-valued place, for nil knowledge
+	fields map[string]val // the variable bound by a type switch case: its fields
+}
+
+// oneofs: the protobuf oneofs the translated code switches on: kind name -> case type -> (Lean constructor, fields)
+type oneofCase struct {
+	goType, ctor string
+	fields       []field
+}
+
+var oneofs = map[string][]oneofCase{
+	"FlushNI": {{"*spb.FlushRequest_All", "FlushNI.All", nil}, {"*spb.FlushRequest_Name", "FlushNI.Name", []field{{"Name", "Name", kStr}}}},
 }
 
 type env struct {
@@ -233,6 +250,9 @@ func init() {
 	for _, c := range strings.Fields("UNSET OK FAILED RIB_PROGRAMMED FIB_PROGRAMMED FIB_FAILED") {
 		knownCtors["AftSt."+c] = true
 	}
+	for _, c := range strings.Fields("UNSET OK NON_ZERO_REFERENCE_REMAIN") {
+		knownCtors["FlushResult."+c] = true
+	}
 	for _, c := range strings.Fields("AFTOperation_INVALID AFTOperation_ADD AFTOperation_REPLACE AFTOperation_DELETE") {
 		knownCtors[c] = true
 	}
@@ -302,6 +322,12 @@ func fieldOf(structName, goField string, pos token.Pos) field {
 
 // selectField translates X.F (or X.GetF()) given X's value.
 func selectField(x val, goField string, en env, pos token.Pos) val {
+	if x.fields != nil {
+		if f, ok := x.fields[goField]; ok {
+			return f
+		}
+		fail(pos, "unknown field %s of a oneof case", goField)
+	}
 	switch x.kd.k {
 	case "ptr":
 		if x.kd.nn {
@@ -398,6 +424,17 @@ func trExpr(e ast.Expr, en env) val {
 			}
 			return val{lean: "[" + strings.Join(els, ", ") + "]", kd: kind{k: "list", s: "AFTResult"}}
 		}
+		if at, ok := v.Type.(*ast.ArrayType); ok && render(at.Elt) == "string" {
+			var els []string
+			for _, el := range v.Elts {
+				x := trExpr(el, en)
+				if x.kd.k != "str" {
+					fail(el.Pos(), "element of a string list of kind %s", x.kd)
+				}
+				els = append(els, x.lean)
+			}
+			return val{lean: "[" + strings.Join(els, ", ") + "]", kd: kind{k: "list", s: "String"}}
+		}
 		fail(v.Pos(), "composite literal %s", render(v))
 	case *ast.BinaryExpr:
 		switch v.Op {
@@ -479,6 +516,160 @@ func trAFTResult(r *ast.CompositeLit, en env) val {
 		fail(r.Pos(), "AFTResult without id or status")
 	}
 	return val{lean: "(" + id + ", " + st + ")", kd: kind{k: "aftresult"}}
+}
+
+// trTypeSwitch: switch t := X.(type) over a protobuf oneof
+func trTypeSwitch(v *ast.TypeSwitchStmt, en env, next cont) string {
+	if v.Init != nil {
+		fail(v.Pos(), "type switch with init")
+	}
+	var bindName string
+	var subject ast.Expr
+	switch a := v.Assign.(type) {
+	case *ast.AssignStmt:
+		bindName = a.Lhs[0].(*ast.Ident).Name
+		subject = a.Rhs[0].(*ast.TypeAssertExpr).X
+	case *ast.ExprStmt:
+		subject = a.X.(*ast.TypeAssertExpr).X
+	}
+	x := trExpr(subject, en)
+	en = absorb(en)
+	if x.kd.k != "oneof" {
+		fail(v.Pos(), "type switch over %s", x.kd)
+	}
+	lets := takeLets()
+	cases := oneofs[x.kd.s]
+	var arms []string
+	covered := map[string]bool{}
+	for _, c := range v.Body.List {
+		cc := c.(*ast.CaseClause)
+		if cc.List == nil {
+			fail(cc.Pos(), "default in a type switch")
+		}
+		if len(cc.List) != 1 {
+			fail(cc.Pos(), "type switch case with several types")
+		}
+		ty := render(cc.List[0])
+		var oc *oneofCase
+		for i := range cases {
+			if cases[i].goType == ty {
+				oc = &cases[i]
+			}
+		}
+		if oc == nil {
+			fail(cc.Pos(), "type %s is not a case of the oneof %s", ty, x.kd.s)
+		}
+		covered[ty] = true
+		e1 := en.push()
+		pat := oc.ctor
+		fv := map[string]val{}
+		for _, f := range oc.fields {
+			n := fresh(lastName(f.goName))
+			pat += " " + n
+			fv[f.goName] = val{lean: n, kd: f.kd}
+		}
+		if bindName != "" {
+			e1.declare(bindName, val{lean: "()", kd: kind{k: "oneofcase"}, fields: fv})
+		}
+		if len(oc.fields) > 0 {
+			pat = "(" + pat + ")"
+		}
+		body := trStmts(cc.Body, e1, func(e env) string { return next(e.pop()) })
+		arms = append(arms, fmt.Sprintf("| some %s => %s", pat, body))
+	}
+	for _, oc := range cases {
+		if !covered[oc.goType] {
+			pat := oc.ctor
+			for range oc.fields {
+				pat += " _"
+			}
+			if len(oc.fields) > 0 {
+				pat = "(" + pat + ")"
+			}
+			arms = append(arms, fmt.Sprintf("| some %s => %s", pat, next(en)))
+		}
+	}
+	arms = append(arms, "| none => "+next(en))
+	return wrapLets(lets, "(match "+x.lean+" with\n"+strings.Join(arms, "\n")+")")
+}
+
+// localOnly: the statements only define and use variables local to the block (error-message
+// formatting); they have no effect outside it
+func localOnly(list []ast.Stmt, declared map[string]bool) bool {
+	okCall := func(c *ast.CallExpr) bool {
+		fn := render(c.Fun)
+		if fn == "fmt.Sprintf" {
+			return true
+		}
+		if sel, ok := c.Fun.(*ast.SelectorExpr); ok {
+			if id, ok := sel.X.(*ast.Ident); ok && declared[id.Name] {
+				return true
+			}
+		}
+		return false
+	}
+	exprOK := func(e ast.Expr) bool {
+		ok := true
+		ast.Inspect(e, func(n ast.Node) bool {
+			if c, isCall := n.(*ast.CallExpr); isCall && !okCall(c) {
+				ok = false
+			}
+			return ok
+		})
+		return ok
+	}
+	for _, st := range list {
+		switch v := st.(type) {
+		case *ast.AssignStmt:
+			if v.Tok != token.DEFINE {
+				return false
+			}
+			for _, r := range v.Rhs {
+				if !exprOK(r) {
+					return false
+				}
+			}
+			for _, l := range v.Lhs {
+				if id, ok := l.(*ast.Ident); ok {
+					declared[id.Name] = true
+				}
+			}
+		case *ast.ExprStmt:
+			c, ok := v.X.(*ast.CallExpr)
+			if !ok || !okCall(c) {
+				return false
+			}
+			for _, a := range c.Args {
+				if !exprOK(a) {
+					return false
+				}
+			}
+		case *ast.SwitchStmt:
+			if v.Init != nil || (v.Tag != nil && !exprOK(v.Tag)) {
+				return false
+			}
+			for _, c := range v.Body.List {
+				if !localOnly(c.(*ast.CaseClause).Body, declared) {
+					return false
+				}
+			}
+		case *ast.RangeStmt:
+			if v.Tok != token.DEFINE || !exprOK(v.X) {
+				return false
+			}
+			for _, e := range []ast.Expr{v.Key, v.Value} {
+				if id, ok := e.(*ast.Ident); ok {
+					declared[id.Name] = true
+				}
+			}
+			if !localOnly(v.Body.List, declared) {
+				return false
+			}
+		default:
+			return false
+		}
+	}
+	return true
 }
 
 // assignedOuter lists the identifiers assigned with = inside the statements
@@ -592,6 +783,19 @@ func trCall(c *ast.CallExpr, en env) []val {
 			}
 		case strings.HasPrefix(sel.Sel.Name, "Get") && len(c.Args) == 0:
 			x := trExpr(sel.X, en)
+			if x.kd.k == "ptr" && !x.kd.nn {
+				if _, bound := en.bound[x.path]; !bound && !en.isNil[x.path] {
+					// protobuf getters are nil-safe: a nil receiver yields the zero value
+					fname := strings.TrimPrefix(sel.Sel.Name, "Get")
+					f := fieldOf(x.kd.s, fname, c.Pos())
+					switch f.kd.k {
+					case "ptr", "oneof":
+						return []val{{lean: "(" + atom(x.lean) + ".bind (fun v => v." + f.lean + "))", kd: f.kd, path: x.path + "." + fname}}
+					default:
+						return []val{{lean: "((" + atom(x.lean) + ".map (fun v => v." + f.lean + ")).getD " + zeroOf(f.kd) + ")", kd: f.kd, path: x.path + "." + fname}}
+					}
+				}
+			}
 			if x.kd.k == "ptr" || x.kd.k == "struct" {
 				return []val{selectField(x, strings.TrimPrefix(sel.Sel.Name, "Get"), en, c.Pos())}
 			}
@@ -612,6 +816,14 @@ func trCall(c *ast.CallExpr, en env) []val {
 			}
 			var out []val
 			for _, r := range o.results {
+				if i := strings.Index(r, "@"); i >= 0 {
+					// a result that depends on an argument: the oracle parameter is a function
+					ai, _ := strconv.Atoi(r[i+1:])
+					f := en.vars[r[:i]]
+					a := trExpr(c.Args[ai], en)
+					out = append(out, val{lean: "(" + f.lean + " " + atom(a.lean) + ")", kd: f.kd.t[0], path: fresh("path")})
+					continue
+				}
 				out = append(out, en.vars[r])
 			}
 			if o.errOf {
@@ -718,6 +930,8 @@ func retKind(r string) kind {
 		return kind{k: "status"}
 	case "mresp":
 		return kind{k: "mresp"}
+	case "fresp":
+		return kind{k: "fresp"}
 	}
 	return kind{k: r}
 }
@@ -823,7 +1037,7 @@ func trCond(e ast.Expr, en env, kt, kf cont) string {
 				switch p.kd.k {
 				case "nilptr":
 					return whenNil(en)
-				case "ptr", "status", "mresp":
+				case "ptr", "status", "mresp", "oneof":
 				default:
 					fail(v.Pos(), "nil test of %s, which has kind %s", render(pe), p.kd)
 				}
@@ -893,6 +1107,14 @@ func wrapLets(lets []string, body string) string {
 
 func trBlock(list []ast.Stmt, en env, k cont) string {
 	inner := en.push()
+	// a block that only formats an error message before returning: translate the return alone
+	if n := len(list); n > 1 {
+		if r, ok := list[n-1].(*ast.ReturnStmt); ok && localOnly(list[:n-1], map[string]bool{}) {
+			if _, isRet := list[0].(*ast.ReturnStmt); !isRet {
+				return trStmts([]ast.Stmt{r}, inner, func(e env) string { return k(e.pop()) })
+			}
+		}
+	}
 	return trStmts(list, inner, func(e env) string { return k(e.pop()) })
 }
 
@@ -914,7 +1136,7 @@ func bindResult(en *env, name string, v val, define bool, pos token.Pos) {
 		return
 	}
 	switch v.kd.k {
-	case "ptr", "status", "mresp", "nilptr":
+	case "ptr", "status", "mresp", "nilptr", "oneof":
 		// alias: nil knowledge travels with the path
 	default:
 		n := fresh(name)
@@ -1095,6 +1317,8 @@ func trStmts(list []ast.Stmt, en env, k cont) string {
 				return ""
 			})
 		return wrapLets(lets, body)
+	case *ast.TypeSwitchStmt:
+		return trTypeSwitch(v, en, next)
 	case *ast.SwitchStmt:
 		if v.Init != nil {
 			fail(v.Pos(), "switch with init")
@@ -1286,6 +1510,26 @@ func trRetVal(e ast.Expr, want string, en env) string {
 			return x.lean
 		}
 		fail(e.Pos(), "error value %s", render(e))
+	case "fresp":
+		if isNilIdent(e) {
+			return "none"
+		}
+		if u, ok := e.(*ast.UnaryExpr); ok && u.Op == token.AND {
+			if cl, ok := u.X.(*ast.CompositeLit); ok && render(cl.Type) == "spb.FlushResponse" {
+				for _, el := range cl.Elts {
+					kv := el.(*ast.KeyValueExpr)
+					if render(kv.Key) == "Result" {
+						r := render(kv.Value)
+						if !strings.HasPrefix(r, "spb.FlushResponse_") {
+							fail(kv.Pos(), "flush result %s", r)
+						}
+						return "(some " + knownCtor(kv.Pos(), "FlushResult."+strings.TrimPrefix(r, "spb.FlushResponse_")) + ")"
+					}
+				}
+				return "(some FlushResult.UNSET)"
+			}
+		}
+		fail(e.Pos(), "flush response %s", render(e))
 	case "mresp":
 		if isNilIdent(e) {
 			return "none"
